@@ -140,6 +140,63 @@ fn encode_case(cmd: &Command, out: &mut Vec<String>) {
     for s in subs { encode_case(s, out); }
 }
 
+/// the fish generator's view of a built level, for the FishGen model
+fn encode_fish(cmd: &Command, out: &mut Vec<String>) {
+    let h = |s: &str| if s.is_empty() { "-".to_string() } else { hex(s.as_bytes()) };
+    let names = cmd.get_name_and_visible_aliases();
+    out.push(names.len().to_string()); for n in names { out.push(h(n)); }
+    out.push(cmd.get_about().map(|a| h(&a.to_string())).unwrap_or("~".into()));
+    let opts: Vec<&Arg> = cmd.get_arguments().filter(|a| !a.is_positional()).collect();
+    out.push(opts.len().to_string());
+    for a in opts {
+        let sh = a.get_short_and_visible_aliases().unwrap_or_default();
+        out.push(sh.len().to_string()); for c in sh { out.push(h(&c.to_string())); }
+        let lo = a.get_long_and_visible_aliases().unwrap_or_default();
+        out.push(lo.len().to_string()); for l in lo { out.push(h(l)); }
+        out.push(a.get_help().map(|x| h(&x.to_string())).unwrap_or("~".into()));
+        let takes = a.get_num_args().expect("built").takes_values();
+        out.push(b01(takes).into());
+        // `utils::possible_values`: only for args that take values and whose parser lists values
+        match if takes { a.get_value_parser().possible_values().map(|it| it.collect::<Vec<_>>()) } else { None } {
+            Some(pvs) => { out.push(pvs.len().to_string()); for pv in pvs { out.push(h(pv.get_name())); out.push(h(&pv.get_help().map(|x| x.to_string()).unwrap_or_default())); out.push(b01(pv.is_hide_set()).into()); } }
+            None => out.push("~".into()),
+        }
+        out.push(match a.get_value_hint() { ValueHint::Unknown => "0", ValueHint::AnyPath | ValueHint::FilePath | ValueHint::ExecutablePath => "1", ValueHint::DirPath => "2",
+            ValueHint::CommandString | ValueHint::CommandName => "3", ValueHint::Username => "4", ValueHint::Hostname => "5", _ => "6" }.into());
+        out.push(a.get_short().map(|c| h(&c.to_string())).unwrap_or("~".into()));
+        out.push(a.get_long().map(h).unwrap_or("~".into()));
+    }
+    out.push(b01(cmd.get_positionals().next().is_some()).into());
+    let subs: Vec<&Command> = cmd.get_subcommands().collect();
+    out.push(subs.len().to_string());
+    for s in subs { encode_fish(s, out); }
+}
+
+/// the nushell generator's view of a built level, for the NuGen model
+fn encode_nu(cmd: &Command, out: &mut Vec<String>) {
+    let h = |s: &str| if s.is_empty() { "-".to_string() } else { hex(s.as_bytes()) };
+    out.push(h(cmd.get_bin_name().unwrap_or("")));
+    out.push(cmd.get_about().map(|a| h(&a.to_string())).unwrap_or("~".into()));
+    let args: Vec<&Arg> = cmd.get_arguments().collect();
+    out.push(args.len().to_string());
+    for a in args {
+        out.push(h(a.get_id().as_str()));
+        let takes = a.get_num_args().map(|r| r.takes_values()).unwrap_or(false);
+        let path = matches!(a.get_value_hint(), ValueHint::AnyPath | ValueHint::FilePath | ValueHint::DirPath | ValueHint::ExecutablePath);
+        out.push([a.is_positional(), matches!(a.get_action(), ArgAction::Append), a.is_required_set(), takes, path].iter().map(|b| if *b { '1' } else { '0' }).collect());
+        let sh = a.get_short_and_visible_aliases().unwrap_or_default();
+        out.push(sh.len().to_string()); for c in sh { out.push(h(&c.to_string())); }
+        let lo = a.get_long_and_visible_aliases().unwrap_or_default();
+        out.push(lo.len().to_string()); for l in lo { out.push(h(l)); }
+        let pvs = a.get_possible_values();
+        out.push(pvs.len().to_string()); for pv in pvs { out.push(h(pv.get_name())); }
+        out.push(a.get_help().map(|x| h(&x.to_string())).unwrap_or("~".into()));
+    }
+    let subs: Vec<&Command> = cmd.get_subcommands().collect();
+    out.push(subs.len().to_string());
+    for s in subs { encode_nu(s, out); }
+}
+
 fn gen_script(shell: &str, n: &GN) -> String {
     let mut cmd = build(n);
     let mut buf = vec![];
@@ -209,6 +266,22 @@ pub fn run(o: &Opts) -> Report {
                 Ok((a, b)) => { if a != b { rep.oracle_fail("generator-nondeterministic", &format!("{key0} shell={shell}"), "two runs differ"); } scripts.insert(shell, a); }
             }
             rep.count(&format!("scripts_{shell}"));
+        }
+        // nushell: the whole script, byte for byte, against the NuGen model
+        if let Some(script) = scripts.get("nu") {
+            let mut b = build(&tree); b.set_bin_name(tree.name.clone()); b.build();
+            let mut t = vec!["nugen".to_string()];
+            encode_nu(&b, &mut t);
+            reqs.push(t.join(" ")); impls.push(hex(script.as_bytes())); keys.push(format!("{key0} [nu script]"));
+            rep.count("nugen");
+        }
+        // fish: the whole script, byte for byte, against the FishGen model
+        if let Some(script) = scripts.get("fish") {
+            let mut b = build(&tree); b.set_bin_name(tree.name.clone()); b.build();
+            let mut t = vec!["fishgen".to_string(), hex(tree.name.as_bytes())];
+            encode_fish(&b, &mut t);
+            reqs.push(t.join(" ")); impls.push(hex(script.as_bytes())); keys.push(format!("{key0} [fish script]"));
+            rep.count("fishgen");
         }
         // elvish / PowerShell: the whole script, byte for byte, against the CaseGen model
         for (shell, tag) in [("elvish", "elvish"), ("pwsh", "pwsh")] {
@@ -346,7 +419,7 @@ pub fn run(o: &Opts) -> Report {
         for (((req, m), i), k) in reqs.iter().zip(model.iter()).zip(impls.iter()).zip(keys.iter()) {
             let mm = if m == "NOTHING" { "WORDS".to_string() } else { m.trim_end().to_string() };
             if req.starts_with("bashcases") && i == "PANIC" { if !m.ends_with("PANIC") { rep.disagree("bashcases", k, m, "generator panicked"); } continue; }
-            if req.starts_with("casegen") {
+            if req.starts_with("casegen") || req.starts_with("fishgen") || req.starts_with("nugen") {
                 if m != i { let dec = |x: &str| String::from_utf8_lossy(&unhex(x)).to_string(); let (a, b2) = (dec(m), dec(i));
                     let d = a.lines().zip(b2.lines()).find(|(x, y)| x != y).map(|(x, y)| format!("model: {x}\nreal:  {y}")).unwrap_or_else(|| format!("{} vs {} lines", a.lines().count(), b2.lines().count()));
                     rep.disagree("casegen", k, &d, ""); }
